@@ -133,7 +133,7 @@ def optimal_points(feas, obj):
         raise StubSolverError("infeasible model")
     vals = feas.astype(float) @ np.asarray(obj, dtype=float)
     best = float(vals.min())
-    idx = np.nonzero(vals <= best + 1e-9 * max(1.0, abs(best)))[0]
+    idx = np.nonzero(vals <= best + 1e-9)[0]
     return best, idx, vals
 
 
